@@ -46,6 +46,7 @@ theorem const_attribute_codes :
     stunDecAttrXorRelayed = 0x0016 ∧ stunDecAttrErrorCode = 0x0009 ∧ stunDecAttrRealm = stunEncAttrRealm ∧
     stunDecAttrNonce = stunEncAttrNonce ∧ stunDecAttrData = stunEncAttrData ∧
     stunDecAttrLifetime = stunEncAttrLifetime ∧ stunDecAttrUseCandidate = stunEncAttrUseCandidate ∧
+    stunDecAttrPriority = stunEncAttrPriority ∧
     stunEncMiAttrLen = 4 + 20 ∧ stunEncFpAttrLen = 4 + 4 := by decide
 
 /-- RFC 8445 §5.1.2.2 recommended type preferences; local preference 65535 for UDP. The TCP local preferences
@@ -173,7 +174,8 @@ theorem foreign_attribute_readings (tx : Bytes) (d : Decoded) (htx : tx.length =
     (∀ v, attrStep tx d 0x0013 v = { d with data := some v }) ∧
     (∀ v, v < 4294967296 → attrStep tx d 0x000D (be32 v) = { d with lifetime := some v }) ∧
     (∀ v, attrStep tx d 0x0025 v = { d with useCandidate := true }) ∧
-    (∀ t v, t ∉ [0x0020, 0x0012, 0x0016, 0x0009, 0x0014, 0x0015, 0x0013, 0x000D, 0x0025] → attrStep tx d t v = d) :=
+    (∀ v, v < 4294967296 → attrStep tx d 0x0024 (be32 v) = { d with priority := some v }) ∧
+    (∀ t v, t ∉ [0x0020, 0x0012, 0x0016, 0x0009, 0x0014, 0x0015, 0x0013, 0x000D, 0x0025, 0x0024] → attrStep tx d t v = d) :=
   foreign_attr_readings tx d htx
 
 /-- non-vacuity: an Allocate error response 438 with reserved bits set, an unknown attribute with non-zero
@@ -557,6 +559,33 @@ theorem connectivity_check_accepted_by_peer (P : Prims) (tx lu ru rpwd : Bytes) 
     cases role <;> cases nom <;> simp [IcePairs.connectivityCheck, IcePairs.software] at ha <;>
       rcases ha with rfl | rfl | rfl | rfl | rfl <;> trivial
   exact IceAuth.codeAuth_complete P ru rpwd lu _ true [IcePairs.software] _ hattrs (by decide) hcolon hutf hwf hs
+
+/-- **peer_reflexive_priority_from_request** (RFC 8445 §7.3.1.3, holds since the `fix:` commit; before, the
+decoder did not expose PRIORITY and the learnt candidate got `priority_for(PeerReflexive, 1)`): decoding the
+connectivity check a peer composes for a local candidate of priority `prio` yields `priority = some prio`, the
+peer-reflexive candidate learnt from it carries exactly `prio`, and so the receiver (local priority `q`)
+computes for the pair the very number the sender computes — the presupposition of the same-ordering clause
+("swapped local/remote priorities") holds for peer-reflexive candidates too. -/
+theorem peer_reflexive_priority_from_request (P : Prims) (tx lu ru rpwd : Bytes) (role : Role) (prio tie q : Nat) (nom : Bool)
+    (sock : IceAuth.Sock) (src : Addr)
+    (htx : tx.length = 12) (hp : prio < 4294967296) (hs : Sized (IcePairs.connectivityCheck tx lu ru role prio tie nom)) :
+    ∃ d, decode (encode P (IcePairs.connectivityCheck tx lu ru role prio tie nom) (some rpwd) true) = .ok d ∧
+      d.priority = some prio ∧ (IceAuth.prflxCand sock src d.priority).priority = prio ∧
+      pairPriority .controlled q (IceAuth.prflxCand sock src d.priority).priority = pairPriority .controlling prio q ∧
+      pairPriority .controlling q (IceAuth.prflxCand sock src d.priority).priority = pairPriority .controlled prio q := by
+  have hok : ∀ a ∈ (IcePairs.connectivityCheck tx lu ru role prio tie nom).attrs, a.Ok := by
+    intro a ha
+    cases role <;> cases nom <;> simp [IcePairs.connectivityCheck, IcePairs.software] at ha <;>
+      rcases ha with rfl | rfl | rfl | rfl | rfl <;> first | trivial | exact hp
+  have hd := stun_decode_encode P _ (some rpwd) true (by exact htx) hok hs
+  refine ⟨_, hd, ?_⟩
+  have hpr : ((IcePairs.connectivityCheck tx lu ru role prio tie nom).attrs.foldl applyAttr
+      (emptyDecoded (IcePairs.connectivityCheck tx lu ru role prio tie nom).cls
+        (IcePairs.connectivityCheck tx lu ru role prio tie nom).method
+        (IcePairs.connectivityCheck tx lu ru role prio tie nom).tx)).priority = some prio := by
+    cases role <;> cases nom <;> simp [IcePairs.connectivityCheck, IcePairs.software, applyAttr, emptyDecoded]
+  rw [hpr]
+  refine ⟨rfl, rfl, ?_, ?_⟩ <;> simp [IceAuth.prflxCand, pairPriority]
 
 /-! ### candidate lines (`to_sdp` / `from_sdp`)
 
